@@ -49,13 +49,18 @@ func rootsTerm(opt *flow.Term, poolSite *string) pat.M {
 		if t.Op != flow.OpIte {
 			return false
 		}
-		if !pat.Bin("==", tr, pat.Const("nil"))(t.Args[0], b) {
+		whenNil, whenSet := t.Args[1], t.Args[2]
+		switch {
+		case pat.Bin("==", tr, pat.Const("nil"))(t.Args[0], b):
+		case pat.Bin("!=", tr, pat.Const("nil"))(t.Args[0], b):
+			whenNil, whenSet = whenSet, whenNil
+		default:
 			return false
 		}
-		if !tr(t.Args[2], b) {
+		if !tr(whenSet, b) {
 			return false
 		}
-		p := flow.StripConv(t.Args[1])
+		p := flow.StripConv(whenNil)
 		if p.Op != flow.OpCall || !strings.HasPrefix(p.Name, "crypto/x509.NewCertPool#") {
 			return false
 		}
@@ -191,6 +196,13 @@ func (env *Env) c02PoolWriters(rootsPool, interPool string) {
 	r := env.R
 	e := env.engine()
 	n := 0
+	// the functions on the call tree of the configuration entry point
+	belowRoT := map[*ssa.Function]bool{}
+	if rotFn := env.P.Func("verify", "RootOfTrustToOptions"); rotFn != nil {
+		for _, f := range env.calleesBelow(rotFn) {
+			belowRoT[f] = true
+		}
+	}
 	for _, fn := range env.P.Funcs {
 		for _, b := range fn.Blocks {
 			for _, in := range b.Instrs {
@@ -227,11 +239,11 @@ func (env *Env) c02PoolWriters(rootsPool, interPool string) {
 					}
 				case recv.Op == flow.OpCall && recv.Name == interPool && interPool != "":
 					r.OK("C02/R1/pool-writer", key+"#intermediates", where, "intermediates pool (not a trust anchor)")
-				case load.FuncName(fn) == "verify.getTrustedRoots" && name == "(*crypto/x509.CertPool).AppendCertsFromPEM" && recv.Op == flow.OpCall && strings.HasPrefix(recv.Name, "crypto/x509.NewCertPool#"):
+				case belowRoT[fn] && name == "(*crypto/x509.CertPool).AppendCertsFromPEM" && recv.Op == flow.OpCall && strings.HasPrefix(recv.Name, "crypto/x509.NewCertPool#"):
 					rot := flow.T(flow.OpParam, "verify.getTrustedRoots#0")
 					rotAlt := func(t *flow.Term, b pat.Bind) bool {
 						// the parameter as seen from the unknown context (callers) or own
-						return t.Op == flow.OpParam && (t.Name == "verify.getTrustedRoots#0" || t.Name == "verify.RootOfTrustToOptions#0")
+						return t.Op == flow.OpParam && (t.Name == load.FuncName(fn)+"#0" || t.Name == "verify.RootOfTrustToOptions#0")
 					}
 					_ = rot
 					fromFile := pat.Res("0", pat.Call("os.ReadFile", pat.Op(flow.OpIndex, "", pat.Field(rotAlt, "CabundlePaths"), pat.Any())))
@@ -340,8 +352,8 @@ func (env *Env) c02RootOfTrust() {
 			r.OK("C02/R4", "flags#"+where, where, "flags copied from the same-named message fields")
 		}
 		roots := flow.StripConv(get("TrustedRoots"))
-		emptyP := pat.Bin("==", pat.Len(pat.Is(fieldT(rot, "CabundlePaths"))), pat.Const("0"))
-		emptyB := pat.Bin("==", pat.Len(pat.Is(fieldT(rot, "Cabundles"))), pat.Const("0"))
+		emptyP := pat.Empty(pat.Is(fieldT(rot, "CabundlePaths")))
+		emptyB := pat.Empty(pat.Is(fieldT(rot, "Cabundles")))
 		has := func(m pat.M, forall bool) bool {
 			for _, g := range a.Gates {
 				if forall && g.Loop == "" {
